@@ -248,8 +248,10 @@ func runCLI(r *mon.Run, c *checker) {
 	prompt := []cli.TTYStep{{Expect: "Enter passphrase", Send: cliPass + "\n", Blind: 1500 * time.Millisecond}}
 
 	type job struct {
-		rt cliRoute
-		v  cliVariant
+		rt     cliRoute
+		v      cliVariant
+		pieces [][]byte // non-nil: standard input is a pipe fed by these writes, with a pause between them
+		dash   bool     // INPUT given as "-" instead of being absent
 	}
 	var jobs []job
 	for _, rt := range cliRoutes {
@@ -265,7 +267,7 @@ func runCLI(r *mon.Run, c *checker) {
 			vs = append(vs, cliPrefixVariants(bin)...)
 		}
 		for _, v := range vs {
-			jobs = append(jobs, job{rt, v})
+			jobs = append(jobs, job{rt: rt, v: v})
 		}
 	}
 
@@ -277,10 +279,67 @@ func runCLI(r *mon.Run, c *checker) {
 		for _, rt := range cliRoutes {
 			// every file through -d -i FILE; -e -i FILE for the control and every other file
 			if rt.identity && !rt.stdin && (!rt.encrypt || i%2 == 0) {
-				jobs = append(jobs, job{rt, v})
+				jobs = append(jobs, job{rt: rt, v: v})
 			}
 		}
 	}
+	// how the text reaches the tool on a stdin PIPE: in several writes with
+	// pauses, cut around the END line, the foreign part after the END line in a
+	// later write than the END line as well as in the same one
+	pipeRoute := cliRoute{name: "INPUT on a stdin pipe written in pieces (-d)", stdin: true}
+	idPipeRoute := cliRoute{name: "-i -, armored encrypted identity file on a stdin pipe written in pieces (-d)", identity: true, stdin: true}
+	second := refage.Armor(mon.DetBytes("c08-pipe-second", 50), "\n")
+	trailers := []struct{ name, data string }{
+		{"nothing", ""}, {"a garbage line", "this is not armor\n"}, {"a second armored block", string(second)},
+		{"a key line", keys.NewX("X2").SecretStr + "\n"}, {"\"x\"", "x"}, {"binary bytes", "\x00\xff\x80"},
+		{"2000 blanks then x", strings.Repeat(" ", 2000) + "x"}, {"CR LF x CR LF", "\r\nx\r\n"}, {"a blank line and x", "\n\nx\n"},
+	}
+	for _, idRoute := range []bool{false, true} {
+		bin, rt := inputBin, pipeRoute
+		if idRoute {
+			bin, rt = idBin, idPipeRoute
+		}
+		for _, eol := range []string{"\n", "\r\n"} {
+			arm := refage.Armor(bin, eol)
+			endStart := len(arm) - len(endLine) - len(eol)
+			for ti, tr := range trailers {
+				if idRoute && (eol != "\n" || ti > 4) {
+					continue
+				}
+				text := append(append([]byte{}, arm...), tr.data...)
+				e, why := cliExpect(text, bin)
+				cuts := map[string][]int{
+					"one write":                          nil,
+					"cut before the END line":            {endStart},
+					"cut after the END line":             {len(arm)},
+					"cut in the middle of the END line":  {endStart + 11},
+					"cut before the END line's line end": {len(arm) - len(eol)},
+					"cut before and after the END line":  {endStart, len(arm)},
+				}
+				if len(tr.data) > 1 {
+					cuts["cut after the first trailing byte"] = []int{len(arm) + 1}
+					cuts["cut after the END line and in the trailer"] = []int{len(arm), len(arm) + len(tr.data)/2}
+				}
+				for cn, at := range cuts {
+					if idRoute && cn != "cut after the END line" && cn != "one write" {
+						continue
+					}
+					var pieces [][]byte
+					prev := 0
+					for _, a := range at {
+						if a > prev && a < len(text) {
+							pieces = append(pieces, text[prev:a])
+							prev = a
+						}
+					}
+					pieces = append(pieces, text[prev:])
+					v := cliVariant{name: fmt.Sprintf("armor(eol %q) followed by %s, %s", eol, tr.name, cn), text: text, expect: e, reason: why}
+					jobs = append(jobs, job{rt: rt, v: v, pieces: pieces, dash: !idRoute && (ti+len(cn))%2 == 0})
+				}
+			}
+		}
+	}
+
 	// the big files first: they take about a second each
 	sort.SliceStable(jobs, func(a, b int) bool { return len(jobs[a].v.text) > toolLimit/2 && len(jobs[b].v.text) <= toolLimit/2 })
 
@@ -303,7 +362,14 @@ func runCLI(r *mon.Run, c *checker) {
 				w("input.age", j.v.text)
 				cmd.StdinFile = filepath.Join(d, "input.age")
 			case j.rt.stdin:
-				cmd.Stdin = j.v.text
+				if j.pieces != nil {
+					cmd.StdinPieces, cmd.StdinPause = j.pieces, 120*time.Millisecond
+				} else {
+					cmd.Stdin = j.v.text
+				}
+				if j.dash {
+					argv = append(argv, "-")
+				}
 			default:
 				w("input.age", j.v.text)
 				argv = append(argv, "input.age")
@@ -312,7 +378,11 @@ func runCLI(r *mon.Run, c *checker) {
 			idArg := "id.age"
 			if j.rt.stdin {
 				idArg = "-"
-				cmd.Stdin = j.v.text
+				if j.pieces != nil {
+					cmd.StdinPieces, cmd.StdinPause = j.pieces, 120*time.Millisecond
+				} else {
+					cmd.Stdin = j.v.text
+				}
 			} else {
 				w("id.age", j.v.text)
 			}
